@@ -133,6 +133,15 @@ def foldGetters (gs : List (Bool × Answer)) : List String :=
 /-- `get_user_groups` for a user that is not None and not cached: `{'anybody'}` plus what the applicable getters answer -/
 def groupsFromGetters (gs : List (Bool × Answer)) : List String := "anybody" :: foldGetters gs
 
+/-- `get_user_roles(user, obj)` for a user that is not None and not cached: `'self'` when the user IS the object, plus what
+    the applicable getters of `userrole_functions` answer; a getter applies when
+    `(user_cls is None or isinstance(user, user_cls)) and (obj_cls is None or isinstance(obj, obj_cls))` -/
+def rolesFromGetters (isSelf : Bool) (gs : List (Bool × Answer)) : List String :=
+  (if isSelf then ["self"] else []) ++ foldGetters gs
+
+/-- `get_object_labels(obj)` (not cached): what the applicable getters of `objlabel_functions` answer -/
+def labelsFromGetters (gs : List (Bool × Answer)) : List String := foldGetters gs
+
 /-! ### the three loops of `has_perm` -/
 
 /-- `for rule in access_rules: if user_groups.issuperset(rule.groups) and entity not in rule.entities_to_exclude: result = True; break` -/
